@@ -63,6 +63,13 @@ Theorem c12_params_not_array : forall c r h,
   exists m, handle c false r = (Some (rpc_error (r_id r) Extracted.rpcParseError m), []).
 Proof. exact handle_bad_params. Qed.
 
+(* client-side naming: the method put on the wire is the formatter applied to the client's namespace and the field
+   name, replaced only by an explicit method tag (regenerated from client.go makeRpcFunc) *)
+Theorem c12_source_facts :
+  Extracted.method_name_assignments = ["name = c.methodNameFormatter(c.namespace, f.Name)"; "name = tag"]%string.
+Proof. reflexivity. Qed.
+
+Print Assumptions c12_source_facts.
 Print Assumptions c12_direct.
 Print Assumptions c12_alias.
 Print Assumptions c12_not_found.
